@@ -3,7 +3,7 @@ import io, os, sys
 sys.path.insert(0, os.path.dirname(__file__))
 from _common import main, j2b, b2j
 
-BOUND = 'configuration entry added / removed between inspections of the same bytes; writer files over 5 message shapes x {latin_1, ascii, cp037, cp500} x blocked/VBS x 1..9 blocks; unblocked files with 40 40 pairs near 1012/2026/3040; every length 0..23 and 24..28; first length max and max+1; every unconfigured bit 2..128'
+BOUND = 'writer files on disk inspected through file handles with buffering -1/0/16/512/1024/2500; configuration entry added / removed between inspections of the same bytes; writer files over 5 message shapes x {latin_1, ascii, cp037, cp500} x blocked/VBS x 1..9 blocks; unblocked files with 40 40 pairs near 1012/2026/3040; every length 0..23 and 24..28; first length max and max+1; every unconfigured bit 2..128'
 
 
 def expected(data):
@@ -65,7 +65,19 @@ def oracle(inp):
     data = inp['data']
     if not isinstance(data, bytes):
         return None
-    info = ipm_info(io.BytesIO(data))
+    if inp.get('buffering') is not None:
+        # the same bytes on disk, inspected through a real (buffered or raw) file handle
+        import tempfile
+        fd, path = tempfile.mkstemp(prefix='c17_')
+        try:
+            with os.fdopen(fd, 'wb') as fh:
+                fh.write(data)
+            with open(path, 'rb', buffering=inp['buffering']) as fh:
+                info = ipm_info(fh)
+        finally:
+            os.unlink(path)
+    else:
+        info = ipm_info(io.BytesIO(data))
     valid, enc, blocked = expected(data)
     what = inp.get('what', 'file of %d bytes' % len(data))
     if bool(info.get('isValidIPM')) != valid:
@@ -102,6 +114,10 @@ def cases(tier, rng):
                             if n * 30 > nblocks * 1012 - 600 or n > 200:
                                 break
                     yield {'data': b2j(f.getvalue()), 'what': '%s writer file, %s, %d records' % ('blocked' if blocked else 'VBS', enc, n)}
+                    if m is msgs[1] and enc in ('latin_1', 'cp500') and nblocks in (1, 2, 3, 9):
+                        for buffering in (-1, 0, 16, 512, 1024, 2500):
+                            yield {'data': b2j(f.getvalue()), 'buffering': buffering,
+                                   'what': '%s writer file on disk, %s, %d records, handle buffering=%d' % ('blocked' if blocked else 'VBS', enc, n, buffering)}
     base = io.BytesIO()
     with IpmWriter(base, blocked=False) as w:
         for _ in range(8):
